@@ -16,7 +16,7 @@ theorem builtin_table_nonempty : builtinNumFmts ≠ [] := by decide
 theorem builtin_ids_agree :
     builtinNumFmts.map (getDefaultNumFmtId builtinNumFmts) = builtinDefaultIds ∧
     ["", "General", "0.000", "#,##0.0", "yyyy-mm-dd"].map (getDefaultNumFmtId builtinNumFmts) = absentDefaultIds := by
-  decide
+  decide +kernel
 
 /-- every built-in code is interned under an id that get_num_fmt resolves back to that code
     (duplicated codes such as the reserved "general" ids go to their first occurrence) -/
@@ -26,7 +26,7 @@ theorem builtin_first_match_ok :
   have h : builtinNumFmts.all (fun code =>
       match getDefaultNumFmtId builtinNumFmts code with
       | some i => decide ((getNumFmt builtinNumFmts i []).toOption = some code)
-      | none => false) = true := by decide
+      | none => false) = true := by decide +kernel
   intro code hc
   have := List.all_eq_true.mp h code hc
   cases hd : getDefaultNumFmtId builtinNumFmts code with
@@ -38,6 +38,6 @@ theorem builtin_fallback_is_first :
     outOfRangeNumFmts.map some =
       [builtinNumFmts.length, builtinNumFmts.length + 1, 1000000].map
         (fun (i : Nat) => (getNumFmt builtinNumFmts (Int.ofNat i) []).toOption) := by
-  decide
+  decide +kernel
 
 end IronCalc.Sheet.Styles
